@@ -1030,19 +1030,19 @@ package lisp
 // the storing function (or a constructor it called) did not allocate itself is
 // one of the audited sites below (the repository marks the same sites with
 // //elps:mutates).  A new in-place writer fails the frame obligation.
-//@ immutable LVal.Cells property C09 except (*LEnv).evalSExpr, (*formalsCopier).copy, whole-struct-store-in:(*formalsCopier).copy, builtinAppendMutate, builtinReject, builtinSelect, builtinSortedMap, lisp/lisplib/libelpspath.storeCells, lisp/lisplib/libschema.markValidator, opFlet, opLabels, opLet, opLetSeq, opMacrolet, parser/rdparser.(*Parser).ParseConsExpression, parser/rdparser.(*Parser).ParseList
-//@ immutable LVal.Type property C09 except whole-struct-store-in:(*formalsCopier).copy
-//@ immutable LVal.Str property C09 except whole-struct-store-in:(*formalsCopier).copy, minifier.applyAssignments, minifier.rewriteExports, minifier.rewriteReferenceNode
-//@ immutable LVal.Native property C09 except whole-struct-store-in:(*formalsCopier).copy, (*LVal).SetCallStack
-//@ immutable LVal.Int property C09 except whole-struct-store-in:(*formalsCopier).copy, builtinAppendMutate, builtinReject, builtinSelect, decrementMarkTailRec, lisp/lisplib/libelpspath.storeCells
-//@ immutable LVal.Float property C09 except whole-struct-store-in:(*formalsCopier).copy
-//@ immutable LVal.FunType property C09 except whole-struct-store-in:(*formalsCopier).copy
-//@ immutable LVal.quoted property C09 except whole-struct-store-in:(*formalsCopier).copy
-//@ immutable LVal.spliced property C09 except whole-struct-store-in:(*formalsCopier).copy
-//@ immutable LVal.source property C09 except whole-struct-store-in:(*formalsCopier).copy, (*LEnv).ErrorAssociate, (*LVal).SetSource, stampGuarded
-//@ immutable LVal.meta property C09 except whole-struct-store-in:(*formalsCopier).copy, init#2$2
-//@ immutable LVal.macroExpansion property C09 except whole-struct-store-in:(*formalsCopier).copy, init#4$1, stampGuarded
-//@ immutable LVal.sealed property C09 except whole-struct-store-in:(*formalsCopier).copy, (*LVal).InheritSeal, (*LVal).sealAST
+//@ immutable LVal.Cells audit-only property C09 except (*LEnv).evalSExpr, (*formalsCopier).copy, whole-struct-store-in:(*formalsCopier).copy, builtinAppendMutate, builtinReject, builtinSelect, builtinSortedMap, lisp/lisplib/libelpspath.storeCells, lisp/lisplib/libschema.markValidator, opFlet, opLabels, opLet, opLetSeq, opMacrolet, parser/rdparser.(*Parser).ParseConsExpression, parser/rdparser.(*Parser).ParseList
+//@ immutable LVal.Type audit-only property C09 except whole-struct-store-in:(*formalsCopier).copy
+//@ immutable LVal.Str audit-only property C09 except whole-struct-store-in:(*formalsCopier).copy, minifier.applyAssignments, minifier.rewriteExports, minifier.rewriteReferenceNode
+//@ immutable LVal.Native audit-only property C09 except whole-struct-store-in:(*formalsCopier).copy, (*LVal).SetCallStack
+//@ immutable LVal.Int audit-only property C09 except whole-struct-store-in:(*formalsCopier).copy, builtinAppendMutate, builtinReject, builtinSelect, decrementMarkTailRec, lisp/lisplib/libelpspath.storeCells
+//@ immutable LVal.Float audit-only property C09 except whole-struct-store-in:(*formalsCopier).copy
+//@ immutable LVal.FunType audit-only property C09 except whole-struct-store-in:(*formalsCopier).copy
+//@ immutable LVal.quoted audit-only property C09 except whole-struct-store-in:(*formalsCopier).copy
+//@ immutable LVal.spliced audit-only property C09 except whole-struct-store-in:(*formalsCopier).copy
+//@ immutable LVal.source audit-only property C09 except whole-struct-store-in:(*formalsCopier).copy, (*LEnv).ErrorAssociate, (*LVal).SetSource, stampGuarded
+//@ immutable LVal.meta audit-only property C09 except whole-struct-store-in:(*formalsCopier).copy, init#2$2
+//@ immutable LVal.macroExpansion audit-only property C09 except whole-struct-store-in:(*formalsCopier).copy, init#4$1, stampGuarded
+//@ immutable LVal.sealed audit-only property C09 except whole-struct-store-in:(*formalsCopier).copy, (*LVal).InheritSeal, (*LVal).sealAST
 //
 // (2) The audited writers that can be handed a shared (sealed) node leave it
 // alone: `keeps LVal.sealed` = every LVal that was sealed when the function was
